@@ -30,8 +30,28 @@ def class_table():
     return _ct
 
 
-def request(ops, nslots, watch, quiet=0):
-    return ("history", [class_table(), nslots, [list(o) for o in ops], list(watch), quiet])
+def request(ops, nslots, watch, quiet=0, variant=0):
+    """variant: which zoo the IMPLEMENTATION ran on (impl/registry.py build_variant: user classes that no naming attribute
+    tells apart); the model request is the same for every variant"""
+    return ("history" if not variant else f"history@zoo{variant}",
+            [class_table(), nslots, [list(o) for o in ops], list(watch), quiet])
+
+
+def diff_variant(d):
+    op = d[1][0]
+    return int(op.split("@zoo")[1]) if "@zoo" in op else 0
+
+
+def _chunk(n, jobs):
+    return max(1, min(BATCH, n // (2 * jobs) + 1))
+
+
+def variants_for(n, jobs, variants):
+    """zoo variant of each of n histories when run_both distributes `variants` over its request lines"""
+    if not variants:
+        return [0] * n
+    b = _chunk(n, jobs)
+    return [variants[(k // b) % len(variants)] for k in range(n)]
 
 
 # ---------------------------------------------------------------------------
@@ -182,16 +202,23 @@ def fast_parse(line):
     return cook(raw_parse(line))
 
 
-def run_both(hists, nslots, watch, jobs=8, quiet=0):
+def run_both(hists, nslots, watch, jobs=8, quiet=0, variants=None):
     """-> list of (model result, implementation result, raw implementation result) per history.
     Result lines that are textually identical are accepted as agreeing (the slow canonical
-    comparison is needed only when the texts differ): for those the first two entries are None."""
+    comparison is needed only when the texts differ): for those the first two entries are None.
+    variants: zoo variants (see request) the implementation runs on, distributed over the request lines
+    (variants_for says which history got which); the model is asked the plain request."""
     ct = class_table()
-    batch = max(1, min(BATCH, len(hists) // (2 * jobs) + 1))
+    batch = _chunk(len(hists), jobs)
     reqs = [("histories", [ct, nslots, [[list(o) for o in h] for h in hists[k:k + batch]], list(watch), quiet])
             for k in range(0, len(hists), batch)]
     lines = [enc(op) + " " + enc(arg) for op, arg in reqs]
-    ml, il = _run_split("model", lines, jobs), _run_split("impl", lines, jobs)
+    ilines = lines
+    if variants:
+        ilines = [enc("histories_v" if variants[j % len(variants)] else op) + " " +
+                  enc(arg + [variants[j % len(variants)]] if variants[j % len(variants)] else arg)
+                  for j, (op, arg) in enumerate(reqs)]
+    ml, il = _run_split("model", lines, jobs), _run_split("impl", ilines, jobs)
     out = []
     decoded_bad = 0
     for rq, a, b in zip(reqs, ml, il):
@@ -217,13 +244,14 @@ def run_both(hists, nslots, watch, jobs=8, quiet=0):
     return out
 
 
-def correspond_histories(ctx, label, hists, nslots, watch, jobs=8, quiet=0):
+def correspond_histories(ctx, label, hists, nslots, watch, jobs=8, quiet=0, variants=None):
     """hists: list of op lists.  Returns disagreements as (index, request, model, impl) where
     request = ("history", [class table, nslots, ops, watch]); fills the coverage statistics."""
     import collections, hashlib
     if not hists:
         return []
-    res = run_both(hists, nslots, watch, jobs=jobs, quiet=quiet)
+    res = run_both(hists, nslots, watch, jobs=jobs, quiet=quiet, variants=variants)
+    vs = variants_for(len(hists), jobs, variants)
     diffs, kinds, sizes, distinct = [], collections.Counter(), collections.Counter(), set()
     steps = 0
     faults = {",".join(str(ord(c)) for c in k) for k in MODEL_FAULTS}
@@ -241,7 +269,7 @@ def correspond_histories(ctx, label, hists, nslots, watch, jobs=8, quiet=0):
         if bad:
             if a is None:
                 a = b = canon_obs("history", cook(raw))
-            diffs.append((k, request(h, nslots, watch, quiet), a, b))
+            diffs.append((k, request(h, nslots, watch, quiet, vs[k]), a, b))
             continue
         steps += len(raw)
         for step in raw:
@@ -262,6 +290,10 @@ def correspond_histories(ctx, label, hists, nslots, watch, jobs=8, quiet=0):
     for k, v in sizes.items():
         st["history_length_histogram"][str(k)] = st["history_length_histogram"].get(str(k), 0) + v
     st["distinct_results"] += len(distinct)
+    if variants:
+        hv = st.setdefault("histories_per_zoo_variant", {})
+        for v in vs:
+            hv[str(v)] = hv.get(str(v), 0) + 1
     a, b, raw = res[0]
     last = (lambda x: repr(x[-1] if isinstance(x, list) and x else x)[:600])
     show = cook(raw) if raw is not None else None
@@ -285,17 +317,18 @@ def first_divergence(m, i):
     return min(len(m), len(i))
 
 
-def disagree_hist(ops, nslots, watch, quiet=0):
-    r = run_both([list(ops)], nslots, watch, jobs=1, quiet=min(quiet, max(0, len(ops) - 1)))[0]
+def disagree_hist(ops, nslots, watch, quiet=0, variant=0):
+    r = run_both([list(ops)], nslots, watch, jobs=1, quiet=min(quiet, max(0, len(ops) - 1)),
+                 variants=[variant] if variant else None)[0]
     return r[0] is not None and (r[0] != r[1] or isinstance(r[0], Err))
 
 
-def shrink_history(ops, nslots, watch, budget=120):
+def shrink_history(ops, nslots, watch, budget=120, variant=0):
     """delete ops while model and implementation still disagree (everything observed)"""
     def cands(h):
         for k in range(len(h) - 1, -1, -1):
             yield h[:k] + h[k + 1:]
-    return shrink(list(ops), lambda h: bool(h) and disagree_hist(h, nslots, watch), cands, budget=budget)
+    return shrink(list(ops), lambda h: bool(h) and disagree_hist(h, nslots, watch, variant=variant), cands, budget=budget)
 
 
 def diff_prefix(d):
@@ -306,17 +339,18 @@ def diff_prefix(d):
 
 
 def shrink_diffs(diffs, limit=3):
-    """-> list of shrunk histories [(ops, nslots, watch)] for the first few disagreements"""
+    """-> list of shrunk histories [(ops, nslots, watch, zoo variant)] for the first few disagreements"""
     out = []
     for d in diffs[:limit]:
         ops, nslots, watch = diff_prefix(d)
-        out.append((shrink_history(ops, nslots, watch), nslots, watch))
+        v = diff_variant(d)
+        out.append((shrink_history(ops, nslots, watch, variant=v), nslots, watch, v))
     return out
 
 
 # ---------------------------------------------------------------------------
 # rendering a history as Python against the public API
-def snippet(ops, nslots):
+def snippet(ops, nslots, variant=0):
     used = {o[2] for o in ops if o[0] in ("dom", "cplx", "strand", "macro", "rxn")}
     lines = ["import gc; gc.disable()   # release must not depend on the cyclic collector",
              "from dsdobjects.base_classes import DomainS, ComplexS, StrandS, MacrostateS, ReactionS",
@@ -326,6 +360,11 @@ def snippet(ops, nslots):
                   ", ".join(f"ZOO[{c}] = {NAMES[c]}" for c in sorted(used) if c >= 5),
                   "import sys; sys.path.insert(0, '/verif/harness')",
                   "from impl.registry import build_zoo, ZOO; build_zoo()"]
+        if variant:
+            lines += ["# the same zoo built from classes that no naming attribute tells apart (variant 1: every user class of "
+                      "one kind has the same __name__/__qualname__/__module__, as from a class factory or type() called twice; "
+                      "variant 2: those of the library class of its kind)",
+                      f"from impl.registry import zoo_variant; zoo_variant({variant}).__enter__()"]
     lines.append(f"s = [None] * {nslots}")
 
     def clsname(c):
@@ -371,6 +410,10 @@ def snippet(ops, nslots):
         elif t == "turns":
             lines.append(tryit(f"s[{o[1]}].turns = {o[2]}"))
     lines.append("for c in (DomainS, ComplexS, StrandS, MacrostateS, ReactionS): print(c.__name__, dict(c._instanceNames))")
+    if variant:
+        lines.append("for k, c in enumerate(ZOO):\n    if len(c._instanceNames): print(f'ZOO[{k}]', c.__name__, "
+                     "{n: f'a {type(o).__name__} that is ' + ('' if type(o) is c else 'NOT ') + f'an instance of exactly ZOO[{k}]' "
+                     "for n, o in c._instanceNames.items()})")
     return "\n".join(lines)
 
 
@@ -548,10 +591,15 @@ def _what_class(what):
 
 
 def oracle_search(pid, histories, deep=False, limit=10):
-    """histories: list of (ops, nslots).  -> list of failing inputs (dicts for flow.conclude)"""
+    """histories: list of (ops, nslots) or (ops, nslots, zoo variant).  -> list of failing inputs (dicts for flow.conclude)"""
     if not histories:
         return []
-    out = run_oracle(pid.lower() + ".py", {"histories": [{"ops": o, "nslots": n} for o, n in histories], "deep": deep})
+    hs = []
+    for o, n, *v in histories:
+        hs.append({"ops": o, "nslots": n})
+        if v and v[0]:
+            hs[-1]["zoo"] = v[0]
+    out = run_oracle(pid.lower() + ".py", {"histories": hs, "deep": deep})
     found, seen = [], set()
     for f in out["failures"]:
         key = {"check": f["check"], "what": _what_class(f["what"]),
@@ -562,14 +610,17 @@ def oracle_search(pid, histories, deep=False, limit=10):
             continue
         seen.add(k)
         found.append({"key": key, "input": {"ops": f["ops"], "nslots": f["nslots"]}, "what": f["what"],
-                      "snippet": snippet(f["ops"], f["nslots"])})
+                      "snippet": snippet(f["ops"], f["nslots"], f.get("zoo", 0))})
+        if f.get("zoo"):
+            found[-1]["input"]["zoo"] = f["zoo"]
+            found[-1]["key"]["zoo"] = f["zoo"]
         if len(found) >= limit:
             break
     return found
 
 
 def run_check(ctx, pid, batches, rule, partial=(), refuted=()):
-    """batches(ctx) -> list of (label, histories, nslots, watch)."""
+    """batches(ctx) -> list of (label, histories, nslots, watch[, quiet[, zoo variants]])."""
     from common import prove, ensure_model_runner
     from flow import conclude
     res = prove(ctx)
@@ -583,7 +634,8 @@ def run_check(ctx, pid, batches, rule, partial=(), refuted=()):
                 # decoding thousands of further disagreements
                 ctx.cov.setdefault("batches_skipped_after_disagreements", []).append(label)
                 continue
-            diffs += correspond_histories(ctx, label, hists, nslots, watch, jobs=16, quiet=q[0] if q else 0)
+            diffs += correspond_histories(ctx, label, hists, nslots, watch, jobs=16, quiet=q[0] if q else 0,
+                                          variants=q[1] if len(q) > 1 else None)
     ctx.cov["rule"] = rule
     ctx.cov["partial"] = list(partial)
     if refuted:
@@ -593,19 +645,20 @@ def run_check(ctx, pid, batches, rule, partial=(), refuted=()):
     def search(diffs):
         cands = []
         # (a) the shrunk disagreements and the disagreeing prefixes themselves
-        for ops, nslots, watch in shrink_diffs(diffs, limit=3):
-            cands.append((ops, nslots))
+        for ops, nslots, watch, v in shrink_diffs(diffs, limit=3):
+            cands.append((ops, nslots, v))
         for d in diffs[:40]:
             ops, nslots, _ = diff_prefix(d)
-            cands.append((ops, nslots))
+            cands.append((ops, nslots, diff_variant(d)))
         found = oracle_search(pid, cands, deep=True)
         if found:
             return found
         # (c) the enumerators against the oracle (bounded)
         budget = 4000 if ctx.tier == "quick" else 40000
-        for label, hists, nslots, watch, *_ in all_batches:
+        for label, hists, nslots, watch, *q in all_batches:
             step = max(1, len(hists) // budget)
-            found += oracle_search(pid, [(h, nslots) for h in hists[::step]][:budget], deep=False)
+            vs = variants_for(len(hists), 16, q[1] if len(q) > 1 else None)
+            found += oracle_search(pid, [(h, nslots, v) for h, v in zip(hists[::step], vs[::step])][:budget], deep=False)
             if found:
                 break
         return found
